@@ -245,6 +245,17 @@ def run_case(case, ctx):
 
 
 def shard_main(ctx):
+    if ctx.shard in (2, 5):
+        # one survey of more than 65 536 traces, every run (see vp/big.py): segyio reader on one shard, reduced-I/O
+        # reader and 'thorough' on another
+        from .. import big
+        case = {"check": "segy", "src": big.REGULAR, "mode": "heuristic" if ctx.shard == 2 else "thorough",
+                "reduce": ctx.shard == 5, "bpv": 8}
+        try:
+            ctx.evaluate(case, run_case)
+        except Violation as v:
+            ctx.failures.append({"kind": v.kind, "detail": v.detail, "case": case})
+            return
     if not ctx.explore("segy", segy_cases(), run_case, ctx.n(150, 1500)):
         return
     ctx.explore("numpy", numpy_cases(), run_case, ctx.n(120, 1000))
